@@ -192,6 +192,11 @@
 (define (uri->string uri . o)
   (define encode? (and (pair? o) (car o)))
   (define encode (if encode? uri-encode (lambda (x) x)))
+  ;; the "/" separators of the path are syntax: escape segment by segment
+  (define (encode-path path)
+    (if encode?
+        (string-join (map uri-encode (string-split path #\/)) "/")
+        path))
   (if (string? uri)
       uri
       (let ((fragment (uri-fragment uri))
@@ -208,7 +213,7 @@
          (if user (encode user) "") (if user "@" "")
          (or host "")                   ; host shouldn't need encoding
          (if port ":" "") (if port (number->string port) "")
-         (if path (encode path) "")
+         (if path (encode-path path) "")
          (if query "?" "")
          (if (pair? query) (uri-alist->query query) (or query ""))
          (if fragment "#" "") (if fragment (encode fragment) "")))))
